@@ -1110,12 +1110,30 @@ def trlog(T, check=True, twist=False):
                 return base.skew(w * theta)
         else:
             # general case
-            theta = math.acos((np.trace(R) - 1) / 2)
-            skw = (R - R.T) / 2 / math.sin(theta)
-            if twist:
-                return base.vex(skw * theta)
+            # the skew part is 2 sin(theta) w, the trace gives cos(theta); atan2 of
+            # the two is accurate for all angles whereas acos(cos(theta)) is not
+            # near 0 and pi
+            li = np.r_[R[2, 1] - R[1, 2], R[0, 2] - R[2, 0], R[1, 0] - R[0, 1]]
+            st = np.linalg.norm(li) / 2
+            ct = (np.trace(R) - 1) / 2
+            theta = math.atan2(st, ct)
+            if st == 0:
+                w = np.zeros((3,))
+            elif ct > -0.5:
+                w = li / 2 * (theta / st)
             else:
-                return skw * theta
+                # near a half turn sin(theta) is small, take the axis from the
+                # symmetric part (R + R')/2 = cos(theta) I + (1 - cos(theta)) w w'
+                M = (R + R.T) / 2 - ct * np.eye(3)
+                k = M.diagonal().argmax()
+                w = M[:, k] / math.sqrt(M[k, k] * (1 - ct))
+                if np.dot(w, li) < 0:
+                    w = -w
+                w = w * theta
+            if twist:
+                return w
+            else:
+                return base.skew(w)
     else:
         raise ValueError("Expect SO(3) or SE(3) matrix")
 
